@@ -191,9 +191,14 @@ func encryptMain(args []string) {
 	salts := map[string][]byte{"-": nil, "1": []byte("salt1"), "2": []byte("salt2"), "7": []byte("salt7"), "8": []byte("salt8")}
 	infos := map[string][]byte{"-": nil, "1": []byte("info1"), "2": []byte("info2"), "7": []byte("info7"), "8": []byte("info8")}
 	pickOpt := func(choices []string) string { return choices[p.intn(len(choices))] }
+	// "N": nil (not supplied); "0": supplied but EMPTY (non-nil, length 0): it counts as supplied, and
+	// HKDF treats it like no salt / info at all, so it prints as "-"
 	optB := func(s, pre string) []byte {
 		if s == "N" {
 			return nil
+		}
+		if s == "0" {
+			return []byte{}
 		}
 		return []byte(pre + s)
 	}
@@ -226,7 +231,7 @@ func encryptMain(args []string) {
 	}
 	for c := 0; c < *n; c++ {
 		st.Cases++
-		w, s, i := pickOpt([]string{"N", "1", "1", "2"}), pickOpt([]string{"N", "1", "2"}), pickOpt([]string{"N", "1"})
+		w, s, i := pickOpt([]string{"N", "1", "1", "2"}), pickOpt([]string{"N", "1", "2", "0"}), pickOpt([]string{"N", "1", "0"})
 		newFilter(w, s, i)
 		// the key material in force, tracked from the calls the harness itself makes (C16 oracle)
 		curW, curS, curI := w, s, i
@@ -241,16 +246,16 @@ func encryptMain(args []string) {
 			st.Ops++
 			switch r := p.intn(10); {
 			case r == 0: // Rotate
-				rw, rs, ri := pickOpt([]string{"N", "2", "3"}), pickOpt([]string{"N", "2"}), pickOpt([]string{"N", "2"})
+				rw, rs, ri := pickOpt([]string{"N", "2", "3"}), pickOpt([]string{"N", "2", "0"}), pickOpt([]string{"N", "2", "0"})
 				var opts []encrypt.Option
 				if rw != "N" {
 					opts = append(opts, encrypt.WithWrapper(h.wrapper(atoi(rw))))
 				}
 				if rs != "N" {
-					opts = append(opts, encrypt.WithSalt(lend([]byte("salt"+rs))))
+					opts = append(opts, encrypt.WithSalt(lend(optB(rs, "salt"))))
 				}
 				if ri != "N" {
-					opts = append(opts, encrypt.WithInfo(lend([]byte("info"+ri))))
+					opts = append(opts, encrypt.WithInfo(lend(optB(ri, "info"))))
 				}
 				h.f.Rotate(opts...)
 				checkLent("Rotate")
@@ -260,7 +265,7 @@ func encryptMain(args []string) {
 				o.emit(fmt.Sprintf("rotate %s %s %s", rw, rs, ri), "ok")
 				st.hit("rotate")
 			case r == 1: // rotation payload
-				rw, rs, ri := pickOpt([]string{"N", "3", "4"}), pickOpt([]string{"N", "2"}), pickOpt([]string{"N", "2"})
+				rw, rs, ri := pickOpt([]string{"N", "3", "4"}), pickOpt([]string{"N", "2", "0"}), pickOpt([]string{"N", "2", "0"})
 				rp := &rotPayload{salt: optB(rs, "salt"), info: optB(ri, "info")}
 				if rw != "N" {
 					rp.w = h.wrapper(atoi(rw))
@@ -310,7 +315,7 @@ func encryptMain(args []string) {
 				var ewi *ewiPayload
 				if p.chance(1, 4) {
 					// EventWrapperInfo payload of a fixed type
-					id, es, ei := pickOpt([]string{"", "1", "2"}), pickOpt([]string{"N", "7"}), pickOpt([]string{"N", "8"})
+					id, es, ei := pickOpt([]string{"", "1", "2"}), pickOpt([]string{"N", "7", "0"}), pickOpt([]string{"N", "8", "0"})
 					ewi = &ewiPayload{salt: optB(es, "salt"), info: optB(ei, "info")}
 					idn := 0
 					if id != "" {
@@ -591,7 +596,7 @@ func encryptMain(args []string) {
 							}
 						}
 						dash := func(x string) string {
-							if x == "N" {
+							if x == "N" || x == "0" || x == "" {
 								return "-"
 							}
 							return x
